@@ -50,6 +50,7 @@ ASSUMPTIONS = ["compared: utterances, t1/t2/t4/apply/turn/health.jsonl bytes und
                "t1-parallel-cache-eviction-order, owned by C09)",
                "before a second session boots, the snapshot files get mtimes in the order they were written (the loader picks "
                "the newest state_*.json by mtime; real mtimes of files written milliseconds apart may tie on coarse clocks)",
+               "a fresh session resumes from the snapshot written last (follows from pacing independence, see check_resume)",
                "the planner installed through the orchestrator's t3_deliberate hook is a pure function of the plan bundle"]
 
 # drawn features (repeats = weight). "agent_scope", "snapshot_every_2", "snippet_template" of the first version are still understood by
@@ -580,18 +581,24 @@ def _execute(case, root):
             turn(eng, st_, k)
             k += 1
         eng2 = None
+        resume_pick = None
         if case.get("resume"):
             # the loader picks the newest state_*.json by mtime: give the files the order in which they were written
             for name, kk in written_at.items():
                 p = os.path.join(snap_dir, name)
                 if os.path.exists(p):
                     os.utime(p, (1_000_000_000 + kk, 1_000_000_000 + kk))
+            if written_at:
+                # what a boot would resume from now vs. the snapshot the script wrote LAST (public probe, same picker as the boot hook)
+                from clematis.engine.snapshot import get_latest_snapshot_info
+                info = get_latest_snapshot_info(snap_dir)
+                resume_pick = [os.path.basename(info["path"]) if info else None, max(written_at, key=lambda n: written_at[n])]
             eng2 = _engine(case, root)
             eng2.state["_boot_loaded"] = False
             for st_ in case["resume"]:
                 turn(eng2, st_, k)
                 k += 1
-    return eng, eng2, lines, bool(work_t1 and work_t2), chain.hexdigest()[:16], bodies
+    return eng, eng2, lines, bool(work_t1 and work_t2), chain.hexdigest()[:16], bodies, resume_pick
 
 
 def _snap_auto(case, root, bodies):
@@ -616,7 +623,7 @@ def _snap_auto(case, root, bodies):
 def run_case(case) -> dict:
     """Execute one case in the current process/environment; returns the comparable observation (hashes + lines)."""
     with world.sandbox() as root:
-        eng, eng2, lines, work, chain, bodies = _execute(case, root)
+        eng, eng2, lines, work, chain, bodies, resume_pick = _execute(case, root)
         logs = eng.logs()
         obs = {"lines": lines}
         for name in observe.CANONICAL:
@@ -631,12 +638,24 @@ def run_case(case) -> dict:
         obs["state"] = digest(observe.state_digest(eng.state))
         if eng2 is not None:
             obs["state2"] = digest(observe.state_digest(eng2.state))
+        if resume_pick is not None:
+            obs["resume_pick"] = resume_pick
         if case.get("snap_auto") and bodies:
             obs["auto"] = _snap_auto(case, root, bodies)
         obs["files"] = eng.listing()
         obs["_work"] = work
         obs["_raw"] = None
         return obs
+
+
+def check_resume(o: dict, case):
+    """The second session must resume from the snapshot the script wrote last. Follows from pacing independence: when the writes are
+    paced further apart than any clock tick, every time-based notion of 'latest' designates the last-written file, and the outcome may
+    not depend on the pacing (nor on SOURCE_DATE_EPOCH, which only replaces the wall clock in the sidecars)."""
+    rp = o.get("resume_pick")
+    if rp and rp[0] != rp[1]:
+        raise Violation(f"a fresh session would resume from {rp[0]!r} although {rp[1]!r} is the snapshot written last "
+                        f"(file mtimes follow the write order)", case, "resume-not-latest")
 
 
 def diff_obs(a: dict, b: dict):
@@ -764,6 +783,9 @@ def run_env(case_list, mode: str, hashseed: str, env_seed: int) -> dict:
         if "clocks" in mode.split("+"):
             # the process time zone is part of "the process" (POSIX TZ strings: no tzdata needed)
             env["TZ"] = ["UTC0", "JST-9", "PST8PDT", "LINT-14", "XXX12", "IST-5:30"][env_seed % 6]
+            # SOURCE_DATE_EPOCH only replaces the wall clock in the snapshot sidecars (not compared): without it the sidecars carry the
+            # perturbed wall clock, and nothing the property names may follow them
+            env.pop("SOURCE_DATE_EPOCH", None)
         p = subprocess.run([sys.executable, "-m", "checks.c01", "worker", inp, outp, mode], env=env, stdout=subprocess.PIPE,
                            stderr=subprocess.STDOUT, cwd=os.path.dirname(os.path.dirname(os.path.abspath(__file__))))
         if not os.path.exists(outp):
@@ -817,6 +839,7 @@ def sub_repro(rec, seed, shard, nshards, n=40, envs=2, shrink=True):
 
     def body(case):
         o0 = run_case(case)
+        check_resume(o0, case)
         o1 = run_case(case)  # warm re-run in the same process (no reset in between)
         d = diff_obs(o0, o1)
         if d:
@@ -855,6 +878,7 @@ def replay_case(c):
     case = c.get("case", c)
     world.reset_engine_globals()
     o0 = run_case(case)
+    check_resume(o0, case)
     o1 = run_case(case)
     d = diff_obs(o0, o1)
     if d:
